@@ -391,8 +391,13 @@ def _split_tuple_assign(tree):
                             any(isinstance(x, (ast.Call, ast.Await)) for v in vs[1:] for x in ast.walk(v)):
                         ok = False
                     if ok:
-                        for t, v in zip(ts, vs):
-                            new.append(ast.copy_location(ast.Assign(targets=[t], value=v), st))
+                        for j_, (t, v) in enumerate(zip(ts, vs)):
+                            a_ = ast.copy_location(ast.Assign(targets=[t], value=v), st)
+                            if j_:
+                                for x in ast.walk(a_):
+                                    if isinstance(x, (ast.stmt, ast.expr)) and hasattr(x, 'lineno'):
+                                        x.lineno = st.lineno + j_ / 100000.0
+                            new.append(a_)
                         continue
                 new.append(st)
             setattr(parent, fld, new)
@@ -1013,6 +1018,9 @@ def _enumerate_with_start(fn):
                 for x in list(ast.walk(new)) + list(ast.walk(inc)):
                     if isinstance(x, (ast.stmt, ast.expr)):
                         ast.copy_location(x, lp)
+                for x in ast.walk(new):
+                    if isinstance(x, (ast.stmt, ast.expr)):
+                        x.lineno = lp.lineno - 0.00005
                 # a hand-written initialisation of the same counter right before the loop is the one the loop replaces
                 if k >= 2 and isinstance(body[k - 2], ast.Assign) and len(body[k - 2].targets) == 1 and isinstance(body[k - 2].targets[0], ast.Name) \
                         and body[k - 2].targets[0].id == i:
@@ -1495,6 +1503,25 @@ class _ReplaceNode(ast.NodeTransformer):
         return super().visit(n)
 
 
+def _order_before(stmts, anchor):
+    """Statements put in front of `anchor` (an inlined helper body) all carry the anchor's position for reports; for rules
+    that compare positions they get line numbers just below the anchor's, increasing in statement order: every node of the
+    k-th statement reads line (anchor - 1) + 0.5 + k / 10000.  Reports print the integer part + 1 ... the anchor's line."""
+    base = getattr(anchor, 'lineno', None)
+    if base is None:
+        return
+    base = int(base) if float(base) == int(base) else base
+    k = 0
+    for s_ in stmts:
+        if s_ is anchor:
+            continue
+        k += 1
+        ln = (int(base) - 1) + 0.5 + k / 10000.0 if float(base) == int(base) else base - (len(stmts) - k) / 1000000.0
+        for x in ast.walk(s_):
+            if isinstance(x, (ast.stmt, ast.expr, ast.ExceptHandler)) and hasattr(x, 'lineno'):
+                x.lineno = ln
+
+
 def _stmt_heads(st):
     return _head_fields(st)
 
@@ -1702,6 +1729,7 @@ def _inline_new_helpers(tree, relpath):
             for x in ast.walk(s_):
                 if not hasattr(x, 'lineno') and isinstance(x, (ast.stmt, ast.expr)):
                     ast.copy_location(x, st)
+        _order_before(out + [st], st)
         h._verif_inlined = getattr(h, '_verif_inlined', 0) + 1
         return out
 
@@ -1843,6 +1871,7 @@ def _inline_new_helpers(tree, relpath):
             for x in ast.walk(s_):
                 if not hasattr(x, 'lineno') and isinstance(x, (ast.stmt, ast.expr)):
                     ast.copy_location(x, st)
+        _order_before(out, st)
         return out
 
     def expand(st, cls, depth):
